@@ -42,7 +42,7 @@ func bubble(t *testing.T, f func()) (res bubbleResult) {
 			s := fmt.Sprint(r)
 			if strings.Contains(s, "blocked goroutines remain") || strings.Contains(s, "deadlock") {
 				res.Leak = s
-				if !strings.Contains(s, "goroutine ") {
+				if !strings.Contains(s, "\ngoroutine ") {
 					// make sure the report says which goroutines were left
 					res.Leak += "\n" + goroutineDump("synctest bubble")
 				}
